@@ -5,16 +5,19 @@ Model: `SnowModel.Persist` (Core/Persist.lean): `saveFile Y g` = `yaml.dump(g.__
 SnowfakeryDumper)` as a tree of scalar tokens with every mapping key-sorted, `loadFile Y doc` =
 `hydrate(Globals, yaml.safe_load(doc))`.  The YAML scalar layer `Y` (one scalar → token → scalar) is a
 parameter; its contract `Lawful Y : ∀ v, Y.load (Y.dump v) = v` over the scalar universe (str incl.
-YAML-hostile, int of any size, float, bool, null, date, datetime) is a HYPOTHESIS of the theorems and
+YAML-hostile, int of any size, float, bool, null, date, datetime, decimal) is a HYPOTHESIS of the theorems and
 is what the correspondence check exercises against PyYAML on every run.
 
 Statements quantify over every state `g` (any number of tables, nicknames, rows, fields, values,
 dependencies) and every chain length.
 
 Defects of the real code that the model keeps faithfully:
-  D04  `save_total` is refuted (Decimal / NicknameSlot values have no representer)  → `save_total_partial`
+  D04  `save_total` is refuted (NicknameSlot values have no representer)            → `save_total_partial`
   D03  the full-snapshot statement is refuted (row-valued fields are dropped)       → `persist_roundtrip_partial`
-  D41  `resave_complete` is refuted (history restore de-duplicates by id only)      → `resave_complete_partial`
+  D49  `history_complete` is refuted (the row history itself is not in the file)
+Repaired since the first version of this file, and proved at full strength now:
+  D04b Decimal values are scalars of the YAML layer (cf894eb)  → `save_total_scalars`, `decimal_roundtrip`
+  D48  the history restore de-duplicates on (table, id) (5da9efa) → `resave_complete`
 -/
 import SnowModel.Core.Persist
 import SnowModel.Proofs.C05
@@ -61,14 +64,8 @@ succeeds"), false of the unchanged tree:
 
   theorem save_total (Y) (g : G) : ∃ doc, saveFile Y g = .ok doc
 -/
-/-- D04: a just_once row holding a `Decimal` cannot be written … -/
+/-- D04: a just_once row holding a stored forward reference (`NicknameSlot`) cannot be written. -/
 theorem save_total_refuted :
-    ∃ g : G, ∀ {τ : Type} (Y : Yaml τ), saveFile Y g = .error (.cannotRepresent "Decimal") :=
-  ⟨{ emptyG with pTable := [("Q", ⟨"Q", [("id", .sc (.int 1)), ("price", .decimal "1.50")]⟩)] },
-    fun _ => rfl⟩
-
-/-- … nor one holding a stored forward reference (`NicknameSlot`). -/
-theorem save_total_refuted_slot :
     ∃ g : G, ∀ {τ : Type} (Y : Yaml τ), saveFile Y g = .error (.cannotRepresent "NicknameSlot") :=
   ⟨{ emptyG with pNick := [("a", ⟨"A", [("id", .sc (.int 1)), ("b", .slot "B")]⟩)] },
     fun _ => rfl⟩
@@ -77,6 +74,30 @@ theorem save_total_refuted_slot :
 theorem save_total_partial {τ : Type} (Y : Yaml τ) (g : G) (h : Storable g) :
     ∃ doc, saveFile Y g = .ok doc :=
   (save_ok_iff Y g).mpr h
+
+/-- every value is a scalar of the universe (str, int, float, bool, null, date, datetime, **decimal**)
+    or a row -/
+def ScalarsOnly (g : G) : Prop :=
+  (∀ kr ∈ g.pNick, ∀ kv ∈ kr.2.values, (∃ v, kv.2 = .sc v) ∨ kv.2.isRow = true) ∧
+  (∀ kr ∈ g.pTable, ∀ kv ∈ kr.2.values, (∃ v, kv.2 = .sc v) ∨ kv.2.isRow = true)
+
+/-- **save_total on the documented value universe** (D04b repaired): whatever scalars — Decimals
+    included — and row references the persistent rows hold, the file can be written. -/
+theorem save_total_scalars {τ : Type} (Y : Yaml τ) (g : G) (h : ScalarsOnly g) :
+    ∃ doc, saveFile Y g = .ok doc := by
+  apply save_total_partial
+  have key : ∀ r : Row, (∀ kv ∈ r.values, (∃ v, kv.2 = .sc v) ∨ kv.2.isRow = true) → r.storable = true := by
+    intro r hr
+    simp only [Row.storable, List.all_eq_true]
+    intro kv hkv
+    rcases hr kv hkv with ⟨v, hv⟩ | hrow
+    · rw [hv]; rfl
+    · cases hv : kv.2 with
+      | sc v => rfl
+      | row a b => rfl
+      | slot a => rw [hv] at hrow; cases hrow
+      | other a => rw [hv] at hrow; cases hrow
+  exact ⟨fun kr hkr => key kr.2 (h.1 kr hkr), fun kr hkr => key kr.2 (h.2 kr hkr)⟩
 
 /-! ### 2. reading it back -/
 
@@ -277,36 +298,28 @@ theorem resave_nick (g : G) (keep : List String) (k : String) (r : Row)
   simp only [restored, resaved, List.any_eq_true, List.mem_filter, List.mem_append, List.mem_map]
   refine ⟨(r.table, some k, r), ⟨Or.inl ⟨(k, r), h, rfl⟩, by simpa using hk⟩, by simp⟩
 
-/-
-FULL STATEMENT ("every just_once row reachable … by table name" is back in the history a continued
-run draws `random_reference`s from), false of the unchanged tree (D41):
-
-  theorem resave_complete (g keep k r) (h : (k, r) ∈ g.pTable) (hk : k ∈ keep) (ht : r.table = k) :
-      restored g keep k r.id? = true
--/
-/-- D41: `already_saved` is a set of bare ids: a row known by table name only is skipped when a
-    nicknamed row of *another* table has the same id. -/
-theorem resave_complete_refuted :
-    ∃ (g : G) (keep : List String) (k : String) (r : Row),
-      (k, r) ∈ g.pTable ∧ k ∈ keep ∧ r.table = k ∧ restored g keep k r.id? = false :=
-  ⟨{ emptyG with
-      pNick := [("par", ⟨"P", [("id", .sc (.int 1))]⟩)]
-      pTable := [("P", ⟨"P", [("id", .sc (.int 1))]⟩), ("Q", ⟨"Q", [("id", .sc (.int 1))]⟩)] },
-   ["Q"], "Q", ⟨"Q", [("id", .sc (.int 1))]⟩, by decide, by decide, rfl, by decide⟩
-
-/-- the row is put back whenever nicknamed rows with its id are rows of its own table -/
-theorem resave_complete_partial (g : G) (keep : List String) (k : String) (r : Row)
-    (h : (k, r) ∈ g.pTable) (hk : k ∈ keep) (ht : r.table = k)
-    (hid : ∀ kr ∈ g.pNick, kr.2.id? = r.id? → kr.2.table = r.table) :
-    restored g keep k r.id? = true := by
-  by_cases hc : (g.pNick.map (fun kr => kr.2.id?)).contains r.id? = true
+/-- **resave_complete** (D48 repaired): every persistent row known by table name, in a table with
+    history, is back in the row history of a continued run — either through its own entry or
+    through the nicknamed row with the same (table, id). -/
+theorem resave_complete (g : G) (keep : List String) (k : String) (r : Row)
+    (h : (k, r) ∈ g.pTable) (hk : k ∈ keep) : restored g keep k r.id? = true := by
+  by_cases hc : (g.pNick.map (fun kr => (kr.2.table, kr.2.id?))).contains (k, r.id?) = true
   · obtain ⟨kr, hkr, he⟩ := List.mem_map.mp (List.contains_iff_mem.mp hc)
-    have htab := hid kr hkr he
-    have := resave_nick g keep kr.1 kr.2 hkr (by rw [htab, ht]; exact hk)
-    rw [htab, ht, he] at this
+    have h1 : kr.2.table = k := congrArg Prod.fst he
+    have h2 : kr.2.id? = r.id? := congrArg Prod.snd he
+    have := resave_nick g keep kr.1 kr.2 hkr (by rw [h1]; exact hk)
+    rw [h1, h2] at this
     exact this
   · simp only [restored, resaved, List.any_eq_true, List.mem_filter, List.mem_append, List.mem_map]
     refine ⟨(k, none, r), ⟨Or.inr ⟨(k, r), ⟨h, by simpa using hc⟩, rfl⟩, by simpa using hk⟩, by simp⟩
+
+/-- the former D48 witness (a nicknamed row of table P and a table-name row of table Q with the same
+    id 1): the Q row is restored -/
+example :
+    restored { emptyG with
+        pNick := [("par", ⟨"P", [("id", .sc (.int 1))]⟩)]
+        pTable := [("P", ⟨"P", [("id", .sc (.int 1))]⟩), ("Q", ⟨"Q", [("id", .sc (.int 1))]⟩)] }
+      ["Q"] "Q" (some (.sc (.int 1))) = true := by decide
 
 /-- the history restore re-creates at most one row per nickname and per table name … -/
 theorem resaved_length_le (g : G) (keep : List String) :
@@ -319,12 +332,12 @@ theorem resaved_length_le (g : G) (keep : List String) :
 /-
 FULL STATEMENT ("everything later iterations can observe": every id that the restored counter of a
 table with history lets `random_reference` draw is the id of a restored row), false of the unchanged
-tree (D42):
+tree (D49):
 
   theorem history_complete (g keep t n) (ht : t ∈ keep) (hn : lookupD t g.lastUsed = some n)
       (i : Int) (h1 : 1 ≤ i) (h2 : i ≤ n) : restored g keep t (some (.sc (.int i))) = true
 -/
-/-- D42: … while the counters say how many rows exist: with two just_once rows of one table only the
+/-- D49: … while the counters say how many rows exist: with two just_once rows of one table only the
     latest is in the file, and id 1 (still drawn by `random_reference`) has no row. -/
 theorem history_complete_refuted :
     ∃ (g : G) (keep : List String) (t : String) (n i : Int),
@@ -336,13 +349,34 @@ theorem history_complete_refuted :
       pTable := [("S", ⟨"S", [("id", .sc (.int 2))]⟩)] },
    ["S"], "S", 2, 1, by decide, by decide, by decide, by decide, by decide⟩
 
+/-- **Decimal round trip** (D04b repaired): a Decimal field is written and read back as a Decimal
+    with the same `str` token (`Decimal('1.10')` stays `'1.10'`) — the former `save_total_refuted`
+    witness, for every lawful layer. -/
+theorem decimal_roundtrip {τ : Type} (Y : Yaml τ) (hY : Lawful Y) :
+    let g : G := { emptyG with pTable := [("Q", ⟨"Q", [("id", .sc (.int 1)), ("price", .sc (.decimal "1.10"))]⟩)] }
+    ∃ doc g', saveFile Y g = .ok doc ∧ loadFile Y doc = .ok g' ∧
+      (lookupD "Q" g'.pTable).bind (fun r => lookupD "price" r.values) = some (.sc (.decimal "1.10")) := by
+  intro g
+  have hs : Storable g := by
+    constructor
+    · intro kr hkr; simp [g, emptyG] at hkr
+    · intro kr hkr
+      simp [g] at hkr
+      subst hkr
+      rfl
+  obtain ⟨doc, hdoc⟩ := save_total_partial Y g hs
+  have hl := persist_roundtrip Y hY g doc (by simp [g, emptyG]) hdoc
+  refine ⟨doc, _, hdoc, hl, ?_⟩
+  simp [canon, strip, g, emptyG, mapD, sortD, insertD, stripRow, canonRow, keptValues, Val.isRow, lookupD]
+
 /-! ### Non-vacuity: a state with hostile strings, a big int, two tables, a dependency -/
 
 def exG : G :=
   { lastUsed := [("Q", 1), ("A", 3)], startIds := [("Q", 1), ("A", 1)],
     pNick := [("qq", ⟨"Q", [("id", .sc (.int 1)), ("s", .sc (.str "12")), ("n", .sc (.str "null")),
                             ("big", .sc (.int 1180591620717411303424)), ("b", .sc (.bool true)),
-                            ("d", .sc (.date "2024-02-29")), ("z", .sc .null), ("f", .sc (.float "1.5"))]⟩)],
+                            ("d", .sc (.date "2024-02-29")), ("z", .sc .null), ("f", .sc (.float "1.5")),
+                            ("dec", .sc (.decimal "1.10"))]⟩)],
     pTable := [("Q", ⟨"Q", [("id", .sc (.int 1)), ("s", .sc (.str "12"))]⟩)],
     nickTable := [("qq", "Q"), ("Q", "Q"), ("A", "A")], today := .date "2024-03-01",
     deps := [⟨"A", "Q", "q"⟩] }
